@@ -260,3 +260,149 @@ pub fn replay(text: &str) -> Option<String> {
     let c = CopyCase { ci: m["cfg"].parse().ok()?, kind, n: m["n"].parse().ok()?, prep: m["prep"].parse().ok()?, op };
     case(&c).err()
 }
+
+// ---- FixedBumpVec: panic or Err? --------------------------------------------------------------------------------
+// A fixed vector has two ways to refuse an insertion: the index is out of bounds (a caller error: panics like
+// `Vec::insert`, also in the try_ twin) or there is no room (Err from the try_ twin, a panic from the panicking one).
+// The differential driver cannot tell these apart for the panicking twin (both panic), so the try_ twins get a closed
+// product of their own: length x free slots x operation x index.
+
+pub const FIXED_OPS: [&str; 5] = ["try_insert", "try_insert_mut", "try_push", "try_push_mut", "try_push_with"];
+
+pub fn fixed_text(ci: usize, n: usize, room: usize, op: &str, idx: usize) -> String {
+    format!("copyops:fixedtry=1;cfg={ci};n={n};room={room};op={op};idx={idx}")
+}
+
+fn fixed_run<S>(n: usize, room: usize, op: &str, idx: usize) -> Result<bool, String>
+where
+    S: BumpAllocatorSettings + 'static,
+    SlabZ: BaseAllocator<S::GuaranteedAllocated>,
+{
+    let bump: B<S> = Bump::new_in(SlabZ);
+    let _ = bump.alloc(0u8);
+    let mut v: FixedBumpVec<u32> = FixedBumpVec::with_capacity_in(n + room, &bump);
+    // `with_capacity_in` may grant more than asked for: fill up to the wanted number of free slots
+    for i in 0..n as u32 {
+        v.push(100 + i);
+    }
+    while v.capacity() - v.len() > room {
+        v.push(0);
+    }
+    let before: Vec<u32> = v.iter().copied().collect();
+    let len = before.len();
+    let is_insert = op.starts_with("try_insert");
+    if !is_insert && idx != 0 {
+        return Ok(false);
+    }
+    let r = catch_unwind(AssertUnwindSafe(|| -> bool {
+        match op {
+            "try_insert" => v.try_insert(idx, 7).is_ok(),
+            "try_insert_mut" => v.try_insert_mut(idx, 7).is_ok(),
+            "try_push" => v.try_push(7).is_ok(),
+            "try_push_mut" => v.try_push_mut(7).is_ok(),
+            _ => v.try_push_with(|| 7).is_ok(),
+        }
+    }));
+    let got: Vec<u32> = v.iter().copied().collect();
+    let out_of_bounds = is_insert && idx > len;
+    match r {
+        Err(_) => {
+            let m = vcore::crash::take_last_panic().unwrap_or_default();
+            if !out_of_bounds {
+                return Err(format!("{op}({idx}) on a fixed vector of {len} elements with {room} free slot(s) panicked: {m}"));
+            }
+            if got != before {
+                return Err(format!("{op}({idx}) panicked and changed the contents to {got:?}"));
+            }
+        }
+        Ok(ok) => {
+            if out_of_bounds {
+                return Err(format!("{op}({idx}) on a fixed vector of {len} elements returned {} instead of panicking like Vec::insert (index out of bounds)", if ok { "Ok" } else { "Err" }));
+            }
+            let mut want = before.clone();
+            if room > 0 {
+                if is_insert { want.insert(idx, 7) } else { want.push(7) }
+            }
+            if ok != (room > 0) {
+                return Err(format!("{op}({idx}) with {room} free slot(s) returned {}", if ok { "Ok" } else { "Err" }));
+            }
+            if got != want {
+                return Err(format!("{op}({idx}): contents {got:?}, expected {want:?}"));
+            }
+        }
+    }
+    Ok(true)
+}
+
+pub fn fixed_case(ci: usize, n: usize, room: usize, op: &str, idx: usize) -> Result<bool, String> {
+    let text = fixed_text(ci, n, room, op, idx);
+    vcore::crash::with_inflight(&text, |p| format!("replaycase=<<{}>>", unsafe { &*(p as *const String) }), || {
+        slab::select(0);
+        slab::reset(0, SlabCfg::default());
+        let _ = vcore::crash::take_last_panic();
+        match catch_unwind(AssertUnwindSafe(|| with_cfg!(ci, |S| fixed_run::<S>(n, room, op, idx)))) {
+            Ok(r) => r,
+            Err(_) => Err(format!("unexpected panic: {}", vcore::crash::take_last_panic().unwrap_or_default())),
+        }
+    })
+}
+
+pub fn explore_fixed(thorough: bool) -> (J, Vec<J>) {
+    let t0 = Instant::now();
+    let max_n = if thorough { 8 } else { 4 };
+    let mut viols = Vec::new();
+    let (mut n_cases, mut nt) = (0u64, 0u64);
+    for ci in 0..CFGS.len() {
+        for n in 0..=max_n {
+            for room in 0..=2usize {
+                for op in FIXED_OPS {
+                    for idx in 0..=n + 4 {
+                        n_cases += 1;
+                        match fixed_case(ci, n, room, op, idx) {
+                            Ok(true) => nt += 1,
+                            Ok(false) => {}
+                            Err(m) => {
+                                if viols.len() < 8 {
+                                    viols.push(J::obj().set("prop", "C08").set("cfg", CFGS[ci].0).set("params", format!("FixedBumpVec n={n} free={room}")).set("history", format!("{op}({idx})")).set("msg", m).set("replay_args", vec!["--case".to_string(), fixed_text(ci, n, room, op, idx)]));
+                                }
+                            }
+                        }
+                    }
+                }
+            }
+        }
+    }
+    let cov = J::obj()
+        .set("states", n_cases)
+        .set("transitions", n_cases)
+        .set("traces_validated_against_impl", n_cases)
+        .set("evaluations", n_cases)
+        .set("distinct_nontrivial", nt)
+        .set("rule", "try_ twins of a fixed vector: FixedBumpVec<u32> of 0..N elements x 0..2 free slots x {try_insert, try_insert_mut at every index up to len + 4, try_push, try_push_mut, try_push_with} x 4 arena configurations; an index beyond the length panics like Vec::insert whether or not there is room, a full vector returns Err and stays unchanged, otherwise Ok with std's contents; non-trivial = applicable cases")
+        .set("samples", vec![fixed_text(0, 3, 0, "try_insert", 4)])
+        .set("exhaustive", true);
+    let space = J::obj()
+        .set("property_id", "C08")
+        .set("tier", if thorough { "thorough" } else { "quick" })
+        .set("seed", 0)
+        .set("level", "model_checking")
+        .set("space", "fixed-vector-try-twins")
+        .set("coverage", cov)
+        .set("wall_s", t0.elapsed().as_secs_f64())
+        .set("violations", viols.len())
+        .set("floor", 300)
+        .set("floor_ok", nt >= 300 || !viols.is_empty());
+    (space, viols)
+}
+
+pub fn replay_fixed(text: &str) -> Option<String> {
+    let rest = text.strip_prefix("copyops:")?;
+    let mut m = std::collections::HashMap::new();
+    for item in rest.split(';') {
+        if let Some((k, v)) = item.split_once('=') {
+            m.insert(k.to_string(), v.to_string());
+        }
+    }
+    let op = FIXED_OPS.into_iter().find(|o| *o == m["op"])?;
+    fixed_case(m["cfg"].parse().ok()?, m["n"].parse().ok()?, m["room"].parse().ok()?, op, m["idx"].parse().ok()?).err()
+}
